@@ -899,7 +899,13 @@ func (r *MUPType2SessionTransformedRoute) Len() int {
 	// + TEID(0-4)
 	// Endpoint Address Length includes TEID Length
 	// + TLVs(variable)
-	return 9 + (int(r.EndpointAddressLength)+7)/8 + mupTLVsLen(r.TLVs)
+	// The endpoint address is always emitted (and read) in full, also
+	// when EndpointAddressLength is smaller than its width.
+	l := 9 + r.EndpointAddress.BitLen()/8
+	if teidLen := int(r.EndpointAddressLength) - r.EndpointAddress.BitLen(); teidLen > 0 {
+		l += (teidLen + 7) / 8
+	}
+	return l + mupTLVsLen(r.TLVs)
 }
 
 func (r *MUPType2SessionTransformedRoute) String() string {
